@@ -4,6 +4,7 @@ access, string conversion) in loops, macros, call blocks, includes, blocks,
 set / filter blocks, tests and filters with attribute arguments."""
 from __future__ import annotations
 
+from vt.mon import c38_deferred as DF
 from vt.mon import c38_shared as SH
 
 # (label, source, needs_async)
@@ -134,7 +135,7 @@ LIB = ("{% macro show(p) %}<{{ p.a }}|{{ p.sub.d }}>{% endmacro %}"
        "{% macro wrap() %}({{ caller() }}){% endmacro %}")
 INC = "{{ mark('inc') }}{{ rec.b }}{% for x in it %}{{ x }}{% endfor %}{{ fn() }}{{ s }}"
 INCNC = "static{{ 1 + 1 }}"
-BASE = ("{% import 'lib.j2' as lib %}{% import 'slib.j2' as sl %}<base>{% block body %}{{ mark('base-block') }}{{ rec.a }}"
+BASE = ("{% import 'lib.j2' as lib %}{% import 'slib.j2' as sl %}{% import 'dlib.j2' as dl %}<base>{% block body %}{{ mark('base-block') }}{{ rec.a }}"
         "{% endblock %}|{% block foot %}{{ mark('base-foot') }}{{ s }}{{ fn() }}{% endblock %}"
         "{{ mark('self-block') }}{{ self.foot() }}</base>")
 
@@ -207,14 +208,19 @@ def gen_case(rng, is_async):
     # sentinels (eval-context sensitive expressions over constants) in every module
     # that is cached per environment
     sense = SH.sense_macros(bool(i18n and i18n["newstyle"]))
-    tpls = {"lib.j2": LIB + sense, "inc.j2": INC, "incnc.j2": INCNC, "base.j2": BASE,
+    dlib, dvariant = DF.gen_dlib(rng, i18n, autoescape)
+    tpls = {"dlib.j2": dlib, "lib.j2": LIB + sense, "inc.j2": INC, "incnc.j2": INCNC, "base.j2": BASE,
             "glib.j2": gen_modlib(rng, is_async) + sense, "incg.j2": gen_modinc(rng, is_async),
             "libctx.j2": LIBCTX, "incimp.j2": INCIMP,
             "slib.j2": SH.gen_slib(rng, is_async, i18n, autoescape), "sinc.j2": SH.SINC,
-            "sincp.j2": SH.SINCP, SH.PROBE: SH.gen_probe(),
+            "sincp.j2": SH.SINCP,
+            SH.PROBE: SH.SEG.join([SH.gen_probe()] + DF.PROBE_SEGS),
             SH.SELFCHECK: SH.gen_selfcheck(bool(i18n and i18n["newstyle"]))}
     spool = [(lab, src, 0) for lab, src, needs in SH.SHARED_FRAGS
              if needs is None or (needs == "async" and is_async) or (needs == "i18n" and i18n)]
+    # macros / call blocks defined inside scoped constructs of the cached dlib.j2 and
+    # called after those constructs ended
+    dpool = DF.frags(dvariant, is_async)
     mains = []
     labels = {}
     for mi in range(3):
@@ -226,11 +232,12 @@ def gen_case(rng, is_async):
                 frags.append(rng.choice(ipool))
             elif c > 0.86:
                 frags.append(rng.choice(MOD_FRAGS))
-            elif c > 0.62:
-                lab, src, _ = rng.choice(spool)
+            elif c > 0.56:
+                deferred = rng.random() < 0.4
+                lab, src, _ = rng.choice(dpool if deferred else spool)
                 if rng.random() < 0.5:
                     # the sentinel right behind the guarded macros, in the same template
-                    src += "{{ sl." + SH.SENSE_CALL + " }}"
+                    src += "{{ " + ("dl." if deferred else "sl.") + SH.SENSE_CALL + " }}"
                 frags.append((lab, src, 0))
             else:
                 frags.append(rng.choice(pool))
@@ -250,7 +257,8 @@ def gen_case(rng, is_async):
                    + "{% endblock %}")
             labs += ["base-foot", "self-block"]
         else:
-            src = "{% import 'lib.j2' as lib %}{% import 'slib.j2' as sl %}" + body
+            src = ("{% import 'lib.j2' as lib %}{% import 'slib.j2' as sl %}"
+                   "{% import 'dlib.j2' as dl %}" + body)
         tpls[name] = src
         mains.append(name)
         labels[name] = labs
@@ -258,5 +266,5 @@ def gen_case(rng, is_async):
             "autoescape": autoescape, "i18n": i18n, "probes": [SH.PROBE]}
     if not is_async:
         # Template.module is the same cached module, reached from Python
-        case["modcalls"] = SH.gen_modcalls(rng)
+        case["modcalls"] = SH.gen_modcalls(rng) + DF.modcalls(rng, dvariant)
     return case
